@@ -1132,6 +1132,10 @@ def move_imports_to_toplevel(source: str) -> str:
     # A name that means something else somewhere in the module (another variable, function or
     # class, or an import of something else) must not be rebound for the whole module.
     other_bindings = tracing.get_defined_names(root)
+    # (the name of a builtin means the builtin wherever it is not imported)
+    other_bindings = other_bindings | (
+        constants.BUILTIN_FUNCTIONS & {node.id for node in core.walk(root, ast.Name)}
+    )
     import_meanings = collections.defaultdict(set)
     for node in all_imports:
         module = (node.level, node.module) if isinstance(node, ast.ImportFrom) else None
